@@ -165,7 +165,7 @@ def r3_unsubscribe_answer(ctx):
             if l.kind == "agg" and l.detail.get("adt", "").endswith("SubscriptionKey"):
                 d = dict(zip(l.detail["fields"], l.detail["ops"]))
                 lc = tr.origins(cb, d["conn_id"])
-                R.check(bool(lc) and all(x.kind == "param" and x.detail.get("name") == "conn_id" for x in lc), "C06.R3", "key-is-callers-connection", "only the caller's own connection's subscriptions can be removed", "the removal key uses connection %s" % [flow.leaf_str(x) for x in lc], where(r))
+                R.check(bool(lc) and all(x.kind == "param" and (x.detail.get("ty") or "").endswith("ConnectionId") for x in lc), "C06.R3", "key-is-callers-connection", "only the caller's own connection's subscriptions can be removed", "the removal key uses connection %s" % [flow.leaf_str(x) for x in lc], where(r))
     # the unsubscribe callback receives the service's conn_id
     b = F.one(RSC)
     for i in callback_invocations(b):
